@@ -145,7 +145,7 @@ def build_c(config="internal"):
             prune("c-" + config + "-", 2)
             return cdir
         r = sh(["gcc", *SAN_FLAGS.split(), "-D" + GUARD, *inc, f"{hs}/cdrv.c", f"{hs}/cdrv_api.c",
-                *libs, "-Wl,--wrap=calloc,--wrap=free", "-lpthread", "-o", os.path.join(cdir, "cdrv")], timeout=300)
+                *libs, "-Wl,--wrap=calloc,--wrap=free,--wrap=octet_string_set_to_zero", "-lpthread", "-o", os.path.join(cdir, "cdrv")], timeout=300)
         if r.returncode != 0:
             raise BuildError("cdrv link failed:\n" + r.stderr[-4000:])
         r = sh([sys.executable, os.path.join(VERIF, "tools/gen_constants.py"), REPO, cb,
